@@ -339,6 +339,9 @@ func (r *Reader) extractTextBlock(sp *spXML) *TextBlock {
 	return block
 }
 
+// maxParagraphLevel is the deepest paragraph level (0-based) DrawingML defines.
+const maxParagraphLevel = 8
+
 // extractParagraph extracts text and formatting from a paragraph.
 func (r *Reader) extractParagraph(p *pXML) Paragraph {
 	para := Paragraph{
@@ -347,7 +350,14 @@ func (r *Reader) extractParagraph(p *pXML) Paragraph {
 
 	// Get paragraph properties
 	if p.PPr != nil {
+		// lvl addresses one of nine list levels (ECMA-376 21.1.2.2.7: 0..8);
+		// anything else is damage and must not size the indentation
 		para.Level = p.PPr.Lvl
+		if para.Level < 0 {
+			para.Level = 0
+		} else if para.Level > maxParagraphLevel {
+			para.Level = maxParagraphLevel
+		}
 		para.Alignment = p.PPr.Algn
 
 		// Check for bullets
